@@ -118,8 +118,14 @@ def irdl_init(interp, self_obj, operands=(), result_types=(), properties=None, a
     return None
 
 
+def irdl_defs(interp, self_obj):
+    """[(name, kind, variadic, optional)] of the declared operands / results of an IRDL op, in declaration order"""
+    return [(n, d.kind, d.variadic, d.optional) for n, d in collect_defs(self_obj.cls) if d.kind in ("operand", "result")]
+
+
 def install_irdl(I):
     ns = dict(
+        irdl_defs=NativeFn(irdl_defs, "irdl_defs"),
         operand_def=_mk("operand"), opt_operand_def=_mk("operand", optional=True), var_operand_def=_mk("operand", variadic=True),
         result_def=_mk("result"), opt_result_def=_mk("result", optional=True), var_result_def=_mk("result", variadic=True),
         prop_def=_mk("prop"), opt_prop_def=_mk("prop", optional=True), attr_def=_mk("attr"), opt_attr_def=_mk("attr", optional=True),
